@@ -45,6 +45,6 @@ def sample(c, o):
     return {'prog': c['prog'], 'env': c['env'], 'reported_duration': (o.get('plain') or {}).get('duration')}
 
 
-LEVEL_TEXT = 'see DESIGN.md C04'
-LEVEL_NOTE = 'see DESIGN.md section 9'
+LEVEL_TEXT = "Coq theorems over the Core model of CircuitCompositeOperation._relative_extent: an empty circuit has duration 0; for every program (flat or nested, also after apply_modifiers) with non-negative durations the reported duration equals latest end minus earliest start over all listed operations; whatever is FOLLOWED_BY a block whose content does not start early starts after every operation inside. spec_ok checks the same on reported durations and on every sub-circuit's extent."
+LEVEL_NOTE = 'Trusted: Coq kernel, Core model tied by correspondence (programs with many JOINED_START/JOINED_END relations). Nested theorem excludes JOINED_END placement of a whole block and empty sub-circuits (stated). No axioms.'
 TECHNIQUE = 'Coq proof over an executable model + correspondence evaluated by vm_compute'
